@@ -1,6 +1,8 @@
 package main
 
 import (
+	"sync/atomic"
+	"runtime"
 	"runtime/debug"
 	"encoding/json"
 	"fmt"
@@ -645,4 +647,31 @@ func (in *Interp) runInit(p *ssa.Package, f *ssa.Function) {
 		}
 	}()
 	in.callSSA(nil, f, nil, nil, 0)
+}
+
+// ---- memory watchdog ----
+//
+// Term tables of a runaway path can grow until the kernel kills the process,
+// which would lose the verdicts of every other run.  A watchdog samples the
+// heap; above the bound every interpreter abandons its path as unsupported
+// (the run is then inconclusive, never a pass).
+
+const memLimitGiB = 28
+
+var memExceeded atomic.Bool
+
+func init() {
+	go func() {
+		var ms runtime.MemStats
+		for {
+			time.Sleep(time.Second)
+			runtime.ReadMemStats(&ms)
+			if ms.HeapAlloc > memLimitGiB<<30 {
+				memExceeded.Store(true)
+				debug.FreeOSMemory()
+			} else if memExceeded.Load() && ms.HeapAlloc < (memLimitGiB/2)<<30 {
+				memExceeded.Store(false)
+			}
+		}
+	}()
 }
